@@ -97,7 +97,19 @@ def targets_once(expr, targets):
 cur = Indices().get_generic_indices(occ=1)[("occ", "")][0].name
 gen = int(cur[1:]) if cur[1:] else 0
 out["targets_not_summed"] = True
+def handed_out(names):
+    """a name that has been handed out before may sit as contracted index inside a cached result:
+    requesting it as target index is the known finding independence.named_target_vs_cached_index
+    (its own single scenario check) - the history probe only uses names that are still unused"""
+    from adcgen.indices import split_idx_string, index_space
+    reg = Indices()
+    return any(n in reg._symbols[index_space(n)][""] for n in split_idx_string(names))
+
+
 for k, nm in enumerate(("k1c1", "k3c3", "m2e2", f"n{gen}g{gen}", f"m{gen + 1}f{gen + 1}", f"k{gen + 2}c{gen + 2}")):
+    if handed_out(nm):
+        out[f"t2s_{k}"] = None
+        continue
     res = gs.amplitude(2, "ph", nm)
     out[f"t2s_{k}"] = canon_plain(res, nm).replace(nm[:len(nm) // 2], "K").replace(nm[len(nm) // 2:], "C")
     out["targets_not_summed"] = out["targets_not_summed"] and targets_once(res, nm)
